@@ -6,6 +6,11 @@ and simulated on a batch of operand vectors, then compared
               by Coq on the same operands (result value, result bitwidth, raising or not;
               `done` and the accumulator on every cycle for the sequential multipliers), and
   (b) SEARCH: with Python integer arithmetic (the specification).
+  (c) STRUCTURAL TIE (kogge_stone): the netlist is walked back from the final concat; the wire
+      holding generate bit i after every prefix stage and the propagate wire every update reads
+      are recovered, the wiring pattern (bit i of stage k reads bit i-2^k of stage k-1) is checked
+      and the simulated values of those internal wires are compared, stage by stage, with the
+      model's generate/propagate lists (ks_trace).
 """
 import itertools
 import multiprocessing
@@ -19,7 +24,8 @@ RULE = ('generator x operand widths x parameters x operand values: kogge_stone, 
         '{kogge_stone,ripple_add,cla_adder}; signed_tree_multiplier; carrysave_adder x 3 final adders; '
         'fast_group_adder (2..9 operands) and fused_multiply_adder/generalized_fma x 6 '
         'reducer/adder configurations; direct reducer calls on random column profiles; simple_mult and '
-        'complex_mult(shifts) driven cycle by cycle.  All width pairs up to the exhaustive bound are '
+        'complex_mult(shifts) driven cycle by cycle; kogge_stone additionally per prefix stage on its internal '
+        'generate/propagate wires (30-36 width pairs up to 64/65 bits).  All width pairs up to the exhaustive bound are '
         'swept over every operand value; mixed widths up to 16 and a few at 63..65 use boundary + seeded '
         'random values.  A case = (generator, parameters, widths, operand vector); it is non-trivial when '
         'at least one operand is non-zero.')
@@ -717,6 +723,143 @@ def compare_seq(ctx, col, job, res, model):
                           'done_bound_cycles': bound})
         ctx.count('done_latency', (first_done - t0) if first_done is not None else 'never')
 
+# --------------------------------------------------------------------------- structural tie: kogge_stone
+
+def ks_structure(wa, wb, cases):
+    """Build kogge_stone(a, b, cin), recover from the NETLIST the wire that holds generate bit i
+    after every prefix stage (walking back from the final concat through the `|` nets) and the
+    propagate wire each update reads; check the wiring pattern of the prefix network and return the
+    simulated values of those internal wires per stage."""
+    pyrtl.reset_working_block()
+    a, b, c = pyrtl.Input(wa, 'a'), pyrtl.Input(wb, 'b'), pyrtl.Input(1, 'c')
+    r = adders.kogge_stone(a, b, c)
+    o = pyrtl.Output(len(r), 'o')
+    o <<= r
+    blk = pyrtl.working_block()
+    prod = {}
+    for net in blk.logic:
+        for d in net.dests:
+            prod[d] = net
+    n = max(wa, wb)
+    top = prod.get(r)
+    if top is None or top.op != '^':
+        return {'error': 'result is not driven by an xor net'}
+    genc = None
+    for w in top.args:
+        nn = prod.get(w)
+        if nn is not None and nn.op == 'c' and len(nn.args) == n + 1 and nn.args[-1] is c:
+            genc = nn
+    if genc is None:
+        return {'error': 'no concat of (generate bits, cin) feeds the final xor'}
+    finals = list(reversed(genc.args[:-1]))
+    chains, updates = [], []
+    for i in range(n):
+        w, ups = finals[i], []
+        while True:
+            net = prod.get(w)
+            if net is None or net.op != '|':
+                break
+            andn = prod.get(net.args[1])
+            if andn is None or andn.op != '&':
+                return {'error': 'generate bit %d: an or-net whose second operand is not an and-net' % i}
+            ups.append((net.args[0], andn.args[0], andn.args[1]))   # (old g, prop_old, g source)
+            w = net.args[0]
+        if prod.get(w) is None or prod[w].op != 's':
+            return {'error': 'generate bit %d does not start from a bit of a & b' % i}
+        ups.reverse()
+        chain = [w]
+        ww = finals[i]
+        back = []
+        while prod.get(ww) is not None and prod[ww].op == '|':
+            back.append(ww)
+            ww = prod[ww].args[0]
+        chain += list(reversed(back))
+        chains.append(chain)
+        updates.append(ups)
+    variant = len(updates[0])            # 1: cin folded into generate bit 0 (current), 0: pre-fix
+    if variant not in (0, 1) or (variant == 1 and updates[0][0][2] is not c):
+        return {'error': 'generate bit 0 is not a & b [| prop & cin]'}
+    nstage = (n - 1).bit_length()
+
+    def state(i, s):          # wire holding generate bit i at the head of stage s
+        if i == 0:
+            return chains[0][-1]
+        return chains[i][min(s, len(chains[i]) - 1)]
+    for i in range(1, n):
+        if len(updates[i]) != i.bit_length():
+            return {'error': 'generate bit %d is updated in %d stages, the prefix network needs %d' % (
+                i, len(updates[i]), i.bit_length())}
+        for j, (old, pold, gsrc) in enumerate(updates[i]):
+            if old is not chains[i][j]:
+                return {'error': 'generate bit %d stage %d: chain broken' % (i, j)}
+            if gsrc is not state(i - (1 << j), j):
+                return {'error': 'generate bit %d stage %d does not read generate bit %d of the previous stage' % (
+                    i, j, i - (1 << j))}
+    track = {id(w): w for ch in chains for w in ch}
+    for ups in updates:
+        for (old, pold, gsrc) in ups:
+            track[id(pold)] = pold
+    tracer = pyrtl.SimulationTrace(wires_to_track=list(track.values()), block=blk)
+    sim = pyrtl.Simulation(tracer=tracer, block=blk)
+    obs = []
+    for (va, vb, vc) in cases:
+        sim.step({'a': va, 'b': vb, 'c': vc})
+        g = [[sim.inspect(state(i, s).name) for i in range(n)] for s in range(nstage + 1)]
+        p = [[(i, j, sim.inspect(updates[i][j][1].name)) for j in range(len(updates[i]))] for i in range(1, n)]
+        obs.append((g, p, sim.inspect('o')))
+    pyrtl.reset_working_block()
+    return {'error': None, 'variant': variant, 'nstage': nstage, 'obs': obs}
+
+
+def structural_kogge(ctx):
+    quick = ctx.tier == 'quick'
+    pairs = [(wa, wb) for wa in range(1, 10) for wb in sorted({1, (wa + 1) // 2, wa})]
+    pairs += [(3, 7), (16, 16), (17, 9), (12, 16)] + ([(33, 31), (64, 64)] if quick else
+                                                      [(31, 32), (33, 33), (64, 64), (65, 63), (24, 7), (13, 15)])
+    todo = []
+    for (wa, wb) in pairs:
+        r = ctx.sub_rng('ks-struct', wa, wb)
+        cases = [(x, y, r.randint(0, 1)) for (x, y) in sample_vectors(r, [wa, wb], 10 if quick else 24)]
+        cases += [((1 << wa) - 1, (1 << wb) - 1, 1), ((1 << wa) - 1, 1, 0), ((1 << wa) - 1, 0, 1)]
+        res = ks_structure(wa, wb, cases)
+        if res['error']:
+            ctx.model_mismatch('kogge_stone netlist no longer has the structure of the modelled prefix network: '
+                               + res['error'], {'api': 'kogge_stone', 'widths': [wa, wb]})
+            continue
+        todo.append((wa, wb, cases, res))
+    if not todo:
+        return
+    exprs = ['h_ks_stages_many %d %d %d %s' % (res['variant'], wa, wb, triples(cases))
+             for (wa, wb, cases, res) in todo]
+    models = ctx.coq_eval(exprs, IMPORTS, tag='c13ks', shard=6, jobs=8)
+    for (wa, wb, cases, res), model in zip(todo, models):
+        ctx.count('kogge_structural', 'n=%d' % max(wa, wb) if max(wa, wb) <= 9 else 'n>9')
+        bad = None
+        for ci, (vals, (g, p, outv), stages) in enumerate(zip(cases, res['obs'], model)):
+            ctx.case(('ks-struct', wa, wb, vals), nontrivial=any(vals))
+            if len(stages) != res['nstage'] + 1:
+                bad = (vals, 'number of stages: netlist %d, model %d' % (res['nstage'] + 1, len(stages)))
+                break
+            for s in range(res['nstage'] + 1):
+                if list(stages[s][0]) != g[s]:
+                    bad = (vals, 'generate bits at the head of stage %d: netlist %s, model %s' % (s, g[s], stages[s][0]))
+                    break
+            if bad:
+                break
+            for row in p:
+                for (i, j, v) in row:
+                    if stages[j][1][i] != v:
+                        bad = (vals, 'propagate bit %d read in stage %d: netlist %d, model %d' % (i, j, v, stages[j][1][i]))
+                        break
+                if bad:
+                    break
+            if bad:
+                break
+        if bad:
+            ctx.model_mismatch('kogge_stone: internal prefix-network wires disagree with the Coq model per stage: ' + bad[1],
+                               {'api': 'kogge_stone', 'widths': [wa, wb], 'operands(a,b,cin)': list(bad[0]),
+                                'model_variant': 'current' if res['variant'] else 'pre-fix'})
+
 
 def run(ctx):
     import time
@@ -748,6 +891,10 @@ def run(ctx):
             compare_seq(ctx, col, job, res, model)
         else:
             compare_comb(ctx, col, job, res, model, variants)
+    try:
+        structural_kogge(ctx)
+    except Exception as e:  # the structural tie must never hide the behavioural result
+        ctx.model_mismatch('structural tie of kogge_stone could not be evaluated: %s' % str(e)[-600:], {})
     for base, vs in sorted(variants.items()):
         ctx.count('model_variant_matched', '%s:%s' % (base, '+'.join(sorted(vs))))
         if 'pre-fix' in vs and 'current' in vs:
